@@ -637,7 +637,19 @@ macro_rules! impl_api {
                 }
                 Ok(())
             }
-            fn x_alloc_try_with_mut(&mut self, ok: bool, try_: bool, _elem_big: bool) -> Result<Option<BoxOut>, ()> {
+            fn x_alloc_try_with_mut(&mut self, ok: bool, try_: bool, elem_big: bool) -> Result<Option<BoxOut>, ()> {
+                if elem_big {
+                    // a payload whose size is a multiple of every minimum alignment but whose alignment is 1
+                    let f = || -> Result<[u8; 16], [u16; 3]> { if ok { Ok([0x6b; 16]) } else { Err([1, 2, 3]) } };
+                    let r = if try_ { self.try_alloc_try_with_mut(f).map_err(|_| ())? } else { BumpScope::alloc_try_with_mut(self, f) };
+                    return Ok(match r {
+                        Ok(b) => {
+                            let okv = *b == [0x6b; 16];
+                            Some(box_out(b, okv))
+                        }
+                        Err(_) => None,
+                    });
+                }
                 let f = || -> Result<[u64; 5], [u8; 3]> { if ok { Ok([0x5555_6666_7777_8888; 5]) } else { Err([1, 2, 3]) } };
                 let r = if try_ { self.try_alloc_try_with_mut(f).map_err(|_| ())? } else { BumpScope::alloc_try_with_mut(self, f) };
                 Ok(match r {
